@@ -13,6 +13,7 @@ from . import c01, c05
 from pyvc.modules import Repo, describe
 from pyvc.interp import Interp, Frame
 from pyvc import values as Vv
+from pyvc.values import is_z3, concrete_int
 
 PROP = 'C06'
 IntS = z3.IntSort()
@@ -58,8 +59,17 @@ class RepresentativeTarget:
                'flags': [], 'lib_pure': [], 'lib_used': ['numpy.where (indices of the True entries, ascending)', 'numpy.unique(return_inverse): classes onto 0..K-1']}
         fref = repo.resolve(self.qualname)
         if fref is None:
-            res['undecided'].append('contract target missing: %s' % self.qualname)
-            return res
+            # the helper may have been renamed / merged: look for the two comprehensions in every method of the class
+            cls = repo.resolve(self.qualname.rsplit('.', 1)[0])
+            cands = []
+            if cls is not None and hasattr(cls, 'own_members'):
+                for nm, f in cls.own_members().items():
+                    if hasattr(f, 'node') and len([n for n in ast.walk(f.node) if isinstance(n, ast.ListComp) and 'where' in ast.dump(n.elt)]) == 2:
+                        cands.append(f)
+            if len(cands) != 1:
+                res['undecided'].append('contract target missing: %s' % self.qualname)
+                return res
+            fref = cands[0]
         res['function_info'] = describe(fref)
         comps = [n for n in ast.walk(fref.node) if isinstance(n, ast.ListComp) and 'where' in ast.dump(n.elt)]
         if len(comps) != 2:
@@ -127,6 +137,136 @@ def rp(ob):
     return {'func': 'unique_vs_full', 'inputs': {'obligation': ob['name']}}
 
 
+# ---- several baths: the influence function handed to back end i uses bath i's data AND bath i's representatives
+NORTH = [[0, 1, 1, 2, 3, 3], [0, 0, 1, 2, 2, 3]]      # two baths with the same number of classes, arranged differently
+WEST = [[0, 1, 2, 2, 1, 0], [0, 0, 1, 1, 2, 2]]
+
+
+def first_positions(m):
+    return [m.index(c) for c in range(max(m) + 1)]
+
+
+def mf_registry():
+    R = Registry()
+
+    def conc(x):
+        if isinstance(x, bool):
+            return x
+        if is_z3(x):
+            v = z3.simplify(x)
+            if z3.is_true(v):
+                return True
+            if z3.is_false(v):
+                return False
+            if z3.is_int_value(v):
+                return v.as_long()
+        if isinstance(x, int):
+            return x
+        raise Unsupported('non-concrete value in the multi-bath scenario: %r' % (x,))
+
+    def items(v):
+        if isinstance(v, Seq):
+            n = concrete_int(v.length)
+            return [conc(v.fn(z3.IntVal(k))) for k in range(n)]
+        return [conc(x) for x in v]
+
+    @model
+    def m_where(ip, args, kw):
+        return (Seq.from_list([i for i, b in enumerate(items(args[0])) if b], 'ndarray'),)
+
+    @model
+    def m_max(ip, args, kw):
+        return max(items(args[0]))
+
+    @model
+    def m_array(ip, args, kw):
+        v = args[0]
+        return Seq.from_list(list(v), 'ndarray') if isinstance(v, list) else v
+
+    @model
+    def m_ones(ip, args, kw):
+        return uf('ones', to_int(args[0]) if not isinstance(args[0], int) else z3.IntVal(args[0]))
+
+    @model
+    def m_backend(ip, args, kw):
+        ip.ghost['backend_args'] = (args, kw)
+        return Obj('MFB', {})
+
+    @model
+    def m_infl(ip, args, kw):
+        ip.ghost.setdefault('infl_calls', []).append((args, kw))
+        return Vc('influence_matrix_result_%d' % len(ip.ghost['infl_calls']))
+
+    @model
+    def m_props(ip, args, kw):
+        return uf('propagators_of', args[0].fields['id'])
+    R.lib_models['numpy.where'] = m_where
+    R.lib_models['numpy.max'] = m_max
+    R.lib_models['numpy.array'] = m_array
+    R.lib_models['numpy.ones'] = m_ones
+    R.models['backends.tempo_backend.MeanFieldTempoBackend'] = m_backend
+    R.models['tempo.influence_matrix'] = m_infl
+    R.models['SysM.get_propagators'] = m_props
+    return R
+
+
+def scen_mf(unique):
+    def scen(ip, repo):
+        baths = [Obj('BathM', {'north_degeneracy_map': Seq.from_list(NORTH[i], 'ndarray'), 'west_degeneracy_map': Seq.from_list(WEST[i], 'ndarray'),
+                               'correlations': Vc('correlations_%d' % i), 'coupling_acomm': Vc('acomm_%d' % i), 'coupling_comm': Vc('comm_%d' % i),
+                               'unitary_transform': Vc('unitary_%d' % i)}) for i in range(2)]
+        systems = [Obj('SysM', {'id': z3.IntVal(i)}) for i in range(2)]
+        params = Obj('ParamsM', {'dt': Real('dt'), 'subdiv_limit': Int('subdiv'), 'liouvillian_epsrel': Real('leps'), 'dkmax': Int('dkmax'),
+                                 'epsrel': Real('epsrel')})
+        self_ = mkobj(repo, 'tempo.MeanFieldTempo', _unique=unique, _parameters=params, _initial_field=Cx(Real('a_re'), Real('a_im')),
+                      _start_time=Real('start_time'), _backend_config={}, _backend_instance=None,
+                      _parsed_parameters_dict={'initial_state': [Vc('rho_0'), Vc('rho_1')], 'hs_dim': [Int('d0'), Int('d1')], 'bath': baths,
+                                               'system': systems})
+        return {'args': [self_], 'kwargs': {}, 'self': self_, 'baths': baths, 'unique': unique, 'inputs': {'unique': unique}}
+    return scen
+
+
+def invoke_mf(ip, repo, fref, ctx):
+    ip.call(fref, [ctx['self']], {})
+    args, kw = ip.ghost['backend_args']
+    infl = args[2]
+    out = []
+    for i, f in enumerate(infl):
+        n0 = len(ip.ghost.get('infl_calls', []))
+        ip.call(f, [Int('dk')], {})
+        out.append(ip.ghost['infl_calls'][n0:])
+    return out
+
+
+def post_mf(ip, ctx, out):
+    if not expect_no_other_exception(ip, out):
+        return
+    for i, calls in enumerate(out.value):
+        b = ctx['baths'][i]
+        ok = len(calls) == 1
+        info = {}
+        if ok:
+            a, kw = calls[0]
+            ok = kw.get('correlations') is b.fields['correlations'] and kw.get('coupling_acomm') is b.fields['coupling_acomm'] and \
+                kw.get('coupling_comm') is b.fields['coupling_comm']
+            dp = kw.get('deg_positions')
+            if ctx['unique']:
+                def num(x):
+                    return x if isinstance(x, int) else z3.simplify(x).as_long()
+
+                def lst(v):
+                    if isinstance(v, Seq):
+                        return [num(v.fn(z3.IntVal(k))) for k in range(concrete_int(v.length))]
+                    return [num(x) for x in v]
+                got = [lst(dp[0]), lst(dp[1])] if dp is not None else None
+                want = [first_positions(NORTH[i]), first_positions(WEST[i])]
+                info = {'bath': i, 'deg_positions handed to influence_matrix': got, 'representatives of this bath\'s classes': want}
+                ip.prove('deg/per-bath-representatives[bath %d]' % i, z3.BoolVal(got == want), info)
+            else:
+                ip.prove('deg/per-bath-representatives[bath %d]' % i, z3.BoolVal(dp is None), {'bath': i})
+        ip.prove('deg/per-bath-influence-data[bath %d]' % i, z3.BoolVal(bool(ok)), {'bath': i})
+
+
 def targets(tier='quick'):
     T = []
     R = c01.np_registry()
@@ -139,6 +279,9 @@ def targets(tier='quick'):
     for qn, label in (('tempo.Tempo._influence', 'Tempo'), ('pt_tempo.PtTempo._influence', 'PtTempo'),
                       ('tempo.MeanFieldTempo._get_influence', 'MeanFieldTempo')):
         T.append(RepresentativeTarget(qn, label))
+    for u in (True, False):
+        T.append(Target('deg/per-bath-influence[MeanFieldTempo,unique=%s]' % u, 'tempo.MeanFieldTempo._prepare_backend', scen_mf(u), post_mf,
+                        mf_registry(), PROP, invoke=invoke_mf, replay=lambda ob: {'func': 'mean_field_two_baths', 'inputs': {'obligation': ob['name']}}))
     return T
 
 
